@@ -10,6 +10,7 @@ import Proofs.Lemmas.C19Order
 import Proofs.Lemmas.C19Merge
 import Proofs.Lemmas.C19Split
 import Proofs.Lemmas.C19Rel
+import Proofs.Lemmas.C19Fmt
 
 namespace C19
 open Storage.Query Analysis.Quote
@@ -189,5 +190,124 @@ theorem query_unsat_spec (db : DB) (hwf : WF db) (hne : NoEmptyValues db) (q : B
         cases hr : sqlAll ps with
         | error e => simp only [bind, Except.bind]; intro he; cases he; exact ih hr
         | ok r => simp [bind, Except.bind, pure, Except.pure]
+
+
+/-! ### printer / reader, coalescing, listing -/
+
+open Storage.Fmt in
+/-- **printer_reader_roundtrip_partial**: the two kinds of configuration line the Printer writes are
+read back as written — `key: value` for a non-empty value that does not start with a blank or tab,
+`key:` as the removal of the key.
+Gap: the statement for whole result streams (labels and content lines of every result survive
+print → read, for any order of the results) is validated by the correspondence run only. -/
+theorem printer_reader_roundtrip_partial (k v : Bytes) (hk : validKey k) :
+    ((∃ c r, v = c :: r ∧ isBlank c = false) →
+      parseKeyValueLine (k ++ [cColon, cSpace] ++ v) = some (k, v)) ∧
+    parseKeyValueLine (k ++ [cColon]) = some (k, []) :=
+  ⟨kv_line_roundtrip k v hk, kv_unset_roundtrip k hk⟩
+
+/-- "upload-file", " f.txt", "f.txt" as byte lists -/
+def bUploadFile : Bytes := [117, 112, 108, 111, 97, 100, 45, 102, 105, 108, 101]
+def bBlankF : Bytes := [32, 102, 46, 116, 120, 116]
+def bF : Bytes := [102, 46, 116, 120, 116]
+
+open Storage.Fmt in
+example : validKey bUploadFile ∧ (∃ c r, bF = c :: r ∧ isBlank c = false) := by
+  refine ⟨⟨⟨117, _, rfl, by decide⟩, by decide⟩, 102, _, rfl, by decide⟩
+
+open Storage.Fmt in
+/-- the hypothesis on the value is needed (finding N7): the server label `upload-file: " f.txt"` is
+printed as `upload-file:  f.txt` and read back without its blank. -/
+theorem printer_reader_blank_counterexample :
+    parseKeyValueLine (bUploadFile ++ [cColon, cSpace] ++ bBlankF) = some (bUploadFile, bF) := by
+  decide
+
+open Storage.Fmt in
+/-- a value ending in CR (line `k: w\r\r\n`, stored as `k: w\r\n`) loses the CR when the stored
+record is scanned again -/
+theorem printer_reader_cr_counterexample :
+    scanLines [107, 58, 32, 119, 13, 10] = [[107, 58, 32, 119]] := by decide
+
+open Storage.Fmt in
+/-- **coalesce_spec_partial**: a result with the same labels as the previous one (`SameLabels`) is
+appended to the previous record and indexes nothing; any other result starts a new record whose
+content is the result printed by a fresh Printer and takes the next record id.
+Gap: (i) that the number of stored records equals the number of runs of identical-label results
+needs "no flush inside a run" (the 990-argument threshold forgets `lastResult`, finding N9);
+(ii) `SameLabels` is not label equality when values are empty (`sameLabels_counterexample`). -/
+theorem coalesce_spec_partial (u : Upload) (r : Result) :
+    (∀ last, u.lastResult = some last → last.sameLabels r = true →
+      (u.insertRecord r).records = appendToLast u.records (r.content ++ [nl]) ∧
+      (u.insertRecord r).labels = u.labels ∧ (u.insertRecord r).recordid = u.recordid) ∧
+    ((u.lastResult = none ∨ ∃ last, u.lastResult = some last ∧ last.sameLabels r = false) →
+      (u.insertRecord r).records = u.records ++ [⟨u.id, u.recordid, (printResult [] r).1⟩] ∧
+      (u.insertRecord r).recordid = u.recordid + 1) := by
+  have hnew : (u.insertNew r).records = u.records ++ [⟨u.id, u.recordid, (printResult [] r).1⟩] ∧
+      (u.insertNew r).recordid = u.recordid + 1 := by
+    unfold Upload.insertNew
+    simp only
+    have h1 := foldl_insertLabel_fields r.labels
+      { u with lastResult := some r, records := u.records ++ [⟨u.id, u.recordid, (printResult [] r).1⟩] }
+    have h2 := foldl_insertLabel_fields r.nameL (r.labels.foldl (fun u kv => u.insertLabel kv.1 kv.2)
+      { u with lastResult := some r, records := u.records ++ [⟨u.id, u.recordid, (printResult [] r).1⟩] })
+    exact ⟨h2.1.trans h1.1, by rw [h2.2.2, h1.2.2]⟩
+  constructor
+  · intro last hl hs
+    unfold Upload.insertRecord
+    simp [hl, hs]
+  · rintro (hn | ⟨last, hl, hs⟩)
+    · unfold Upload.insertRecord; rw [hn]; exact hnew
+    · unfold Upload.insertRecord; simp only [hl, hs, Bool.false_eq_true, if_false]; exact hnew
+
+open Storage.Fmt in
+/-- `Labels.Equal` treats a missing key as the empty value: the name labels of `X/` and `X/a=`
+compare equal, so the two lines are stored as one record (class of finding N8). -/
+theorem sameLabels_counterexample :
+    Labels.equal (parseNameLabels [88, 47]) (parseNameLabels [88, 47, 97, 61]) = true ∧
+    parseNameLabels [88, 47] ≠ parseNameLabels [88, 47, 97, 61] := by decide +kernel
+
+theorem filter_flatMap_length (db : DB) (keys : List RKey) (id : Bytes) :
+    countFor (keys.flatMap fun k => (db.records.filter (·.rkey == k)).map (·.rkey)) id =
+    ((keys.flatMap fun k => db.records.filter (·.rkey == k)).filter (·.upload == id)).length := by
+  unfold countFor
+  induction keys with
+  | nil => simp
+  | cons k ks ih =>
+    simp only [List.flatMap_cons, List.filter_append, List.length_append, ih]
+    congr 1
+    rw [List.filter_map, List.length_map]
+    rfl
+
+/-- **listing_spec_partial**: for an accepted query the listing reports, for every upload, the
+number of records the same query selects (`selectRecords`, characterised by `query_result_spec`)
+that belong to the upload; uploads without such a record are left out; the rows are those of
+`sortNewer` (insertion by `Day DESC, Seq DESC, UploadID DESC`) cut at a positive limit.
+Gap: that `sortNewer` yields a sorted permutation is not proved (validated by the correspondence
+run, including sequence numbers above 9 and day changes). -/
+theorem listing_spec_partial (db : DB) (q : Bytes) (limit : Int) (rows : List (Bytes × Nat))
+    (h : listUploads db q limit = .ok rows) :
+    ∃ sqls, parseQuery q = .ok sqls ∧
+      rows = (applyLimit limit (sortNewer ((db.uploads.map fun u =>
+        (u, ((selectRecords db sqls).filter (·.upload == u.id)).length)).filter (·.2 > 0)))).map
+          fun p => (p.1.id, p.2) := by
+  unfold listUploads at h
+  cases hp : parseQuery q with
+  | error e => simp only [hp, bind, Except.bind] at h; cases h
+  | ok sqls =>
+    refine ⟨sqls, rfl, ?_⟩
+    simp only [hp, bind, Except.bind, pure, Except.pure, Except.ok.injEq] at h
+    subst h
+    cases sqls with
+    | nil => rfl
+    | cons s rest =>
+      have hm : (db.uploads.map fun u => (u, countFor ((joinAll db (s :: rest)).flatMap fun k =>
+            (db.records.filter (·.rkey == k)).map (·.rkey)) u.id)) =
+          (db.uploads.map fun u => (u, (((joinAll db (s :: rest)).flatMap fun k =>
+            db.records.filter (·.rkey == k)).filter (·.upload == u.id)).length)) := by
+        apply List.map_congr_left
+        intro u _
+        rw [filter_flatMap_length]
+      simp only [selectRecords]
+      rw [hm]
 
 end C19
